@@ -230,6 +230,8 @@ DepthOK(t) == /\ \A q \in DOMAIN t : Len(q) <= MaxTreeDepth
 CallSeq == SX!SetToSeq(Calls)
 Tr(t, c) == LET r == Eval(t, c) IN
   [e |-> r.e, ep |-> r.ep, o |-> r.o, b |-> r.b,
+   \* alt: the other acceptable outcome of a tolerated root removal (succeed leaving an empty root)
+   alt |-> IF r.e = "ROOTANY" THEN Empty ELSE "-",
    n |-> IF r.t = t THEN "=" ELSE IF DepthOK(r.t) THEN r.t ELSE "skip"]
 Line(t) == [s |-> t, r |-> [i \in 1..Len(CallSeq) |-> Tr(t, CallSeq[i])]]
 
